@@ -73,7 +73,7 @@ fn spec_for(prop: &str, tier: &str, seed: u64) -> RunSpec {
         }
         "C08" => {
             s.rule = "instances with maintenance slots; the real build_local_search_solver(..).solve() runs on the depot-improved min-cost-flow solution while hook H1 records every accepted step; offline trace checker: recorded objective vectors = true (unserved, violation, vehicles, costs) recomputed by the reference model in that order, every step strictly lexicographically improving, chain gapless from the start solution to the returned result, result <= start, second run accepts nothing, and an independent scan of neighbors_of(result) finds nothing better. non-trivial = distinct instances whose search accepted >= 1 step".to_string();
-            s.cases = if thorough { 8000 } else { 1500 };
+            s.cases = if thorough { 20000 } else { 5000 };
             s.cpu_budget_s = 60.0;
         }
         "C11" => {
